@@ -53,8 +53,21 @@ def user(name):
     return ("wobj", "m_" + name)
 
 
+def _unittest_attributes():
+    """Every attribute an instance of the standard library's unittest.TestCase has (the external base class of
+    testtools.TestCase): the environment's own definition, read from the installed standard library."""
+    import unittest
+    return frozenset(dir(unittest.TestCase("run")))
+
+
 class CaseDomain(so.StreamDomain):
     closed_private = True
+    _BASE_ATTRS = _unittest_attributes()
+
+    def root_attr_absent(self, attr):
+        # The case was built by its real constructor and only scripted user code touches it: an attribute that the state,
+        # the script, the classes of the repository and unittest.TestCase all do not define does not exist.
+        return super().root_attr_absent(attr) or attr not in self._BASE_ATTRS
     invented_bases = {cls: bases for cls, bases, _ in SUBCLASSES.values()}
     """``script``: user callable name -> list of actions: ("call", method, pos, kw) on the case, ("raise", exception),
     ("return", value), ("set", attribute, value), ("once", action) -- the action in the first call of that callable
